@@ -79,7 +79,7 @@ def edit_commands(ctx, prev, st):
     p_steps = prev['steps'] if prev else []
     for i in st['steps']:
         if i not in p_steps:
-            a = ['step', 'new', '-s', f's{i}', '-c', f'{ctx.step_bin} s{i} $$']
+            a = ['step', 'new', '-s', f's{i}', '-c', f'exec {ctx.step_bin} s{i} $$']
             w = st.get('whens', {}).get(str(i))
             if w and w != 'by_dependencies':
                 a += ['--when', w]
@@ -132,6 +132,8 @@ def run_history(ctx, case, hook=False, timeout=20, keep=False):
         for i in st['steps']:
             b = sc_case['behav'][i]
             lines = [f'sleep_ms {b["sleep_ms"]}', f'rc {b["rc"]}', f'out {b["out"]}', f'err {b["err"]}'] + [f'touch {p}' for p in outs_of.get(i, [])]
+            if b.get('closefds'):
+                lines.append(f'closefds {b["closefds"]}')
             open(sb.path(f'.ctl/s{i}'), 'w').write('\n'.join(lines) + '\n')
         for pth in (sb.path('.ctl/journal'), trace_path):
             try:
@@ -259,6 +261,40 @@ def gen_histories(rng, quick):
     s4['behav'] = {3: {'rc': 1, 'sleep_ms': 60}}
     s4['files'] = {'shared/m/static.txt': 'four\n'}
     cases.append(mk_history('history/two-consumers-two-producers', 4, [s1, s2, s3, s4]))
+    return cases
+
+
+def gen_shared_outputs(rng, quick):
+    """the SAME path declared as output by two or three steps and read by a third (seed C10-4: an index "path -> producing step"
+    keeps only one producer, in random hash order): the consumer must wait for EVERY producer and must not run when ANY of them
+    failed.  Every consumer realisation, producers ok / failing / slow in the interesting assignments, each pipeline run three
+    times (new hash order per process); first entry = the minimised C10-4 scenario."""
+    cases = []
+    text = lambda r: f'alpha {r}\nbeta {r}\ngamma\n'
+
+    def hist(label, kind, behavs, nprod=2, runs=3):
+        if kind in GLOB_KINDS:
+            target, path, extra = 'shared/g/*.txt', 'shared/g/p.txt', 'shared/g/static.txt'
+        else:
+            target, path, extra = 'x_shared.txt', 'x_shared.txt', None
+        prods = list(range(1, 1 + nprod))
+        stages = []
+        for r in range(runs):
+            files = {path: text(r)}
+            if extra:
+                files[extra] = text(r)
+            stages.append({'steps': [0] + prods, 'reads': [[0, kind, target]], 'outs': [[p, path] for p in prods], 'files': files,
+                           'behav': {p: b for p, b in zip(prods, behavs)}})
+        return mk_history(label, 4, stages)
+    ok, fail, slow, slowfail = {'sleep_ms': 20}, {'rc': 1, 'sleep_ms': 20}, {'sleep_ms': 160}, {'rc': 1, 'sleep_ms': 160}
+    cases.append(hist('corpus/C10-4 two producers of one --output-file, the slow one fails, consumer by --file', 'file', [ok, slowfail], runs=4))
+    assignments = [[ok, fail], [fail, ok], [slow, ok], [ok, slow], [slowfail, ok], [fail, slow]]
+    kinds = ['file', 'glob', 'globi', 'regex', 'regexi', 'lines', 'linei']
+    for kind in kinds:
+        for a in (assignments if not quick else rng.sample(assignments, 3)):
+            cases.append(hist(f'shared-output/{kind}', kind, a))
+    for kind in ('file', 'glob', 'globi'):
+        cases.append(hist(f'shared-output/{kind}/3 producers', kind, rng.choice([[ok, ok, slowfail], [slow, fail, ok], [ok, slow, slow]]), nprod=3))
     return cases
 
 
